@@ -125,7 +125,10 @@ class Rule:
         return self.default, "default"
 
     def data(self, res, level, permtype="permissions"):
-        with open((self.perm if res == "perm" else self.maps)[level]) as fp:
+        table = self.perm if res == "perm" else self.maps
+        if level not in table:                  # no file even for the default level: nothing to load
+            return {}
+        with open(table[level]) as fp:
             j = json.load(fp)
         return j[permtype] if res == "perm" else j
 
